@@ -129,6 +129,11 @@ func (r *RibEntry) updateNexthopsEnc() {
 					routes = append(routes, route)
 				}
 			}
+			// Inheritance stops at (and includes) the nearest
+			// shorter prefix that holds a capture route
+			if entry != r && entry.HasCaptureRoute() {
+				break
+			}
 		}
 	}
 
